@@ -23,8 +23,11 @@ FLOOR = 10
 
 
 def _lists():
-    Xtr = V("list", T("sym", "X_train"), orig=frozenset([("in", "X_train")]), extra=("comp", None, (Dim.of("St"), Dim.of("a"), Dim.of("F"))))
-    Xte = V("list", T("sym", "X_test"), orig=frozenset([("in", "X_test")]), extra=("comp", None, (Dim.of("Sv"), Dim.of("b"), Dim.of("F"))))
+    from ..apitable import ragged
+
+    # ragged structure lists: every structure has its own number of environments
+    Xtr = V("list", T("sym", "X_train"), orig=frozenset([("in", "X_train")]), extra=("comp", None, (Dim.of("St"), ragged("a"), Dim.of("F"))))
+    Xte = V("list", T("sym", "X_test"), orig=frozenset([("in", "X_test")]), extra=("comp", None, (Dim.of("Sv"), ragged("b"), Dim.of("F"))))
     return Xtr, Xte
 
 
